@@ -298,6 +298,8 @@ class UBXReader:
         :raises: UBXStreamError if stream ends prematurely
         """
 
+        if size == 0:  # nothing to read e.g. zero-length RTCM3 payload
+            return b""
         data = self._stream.read(size)
         if len(data) == 0:  # EOF
             raise EOFError()
